@@ -581,3 +581,57 @@ mod tests {
         }
     }
 }
+
+#[cfg(wtransport_verif)]
+#[doc(hidden)]
+#[allow(missing_docs)]
+pub mod verif {
+    use super::*;
+
+    pub fn decode_integer<const N: usize>(bytes: &mut &[u8]) -> Result<(u8, usize), DecodingError> {
+        Decoder::decode_integer::<N, _>(bytes)
+    }
+
+    pub fn encode_integer<const N: usize, W: BytesWriter>(
+        flags: u8,
+        value: usize,
+        out: &mut W,
+    ) -> Result<(), EndOfBuffer> {
+        Encoder::encode_integer::<N, _>(flags, value, out)
+    }
+
+    pub fn decode_string<const N: usize>(bytes: &mut &[u8]) -> Result<String, DecodingError> {
+        Decoder::decode_string::<N, _>(bytes)
+    }
+
+    pub fn encode_string<const N: usize, W: BytesWriter>(
+        flags: u8,
+        value: &str,
+        out: &mut W,
+    ) -> Result<(), EndOfBuffer> {
+        Encoder::encode_string::<N, _, _>(flags, value, out)
+    }
+
+    /// 0 = Indexed, 1 = IndexedPost, 2 = LiteralRefName, 3 = LiteralPostRefName, 4 = LiteralLitName.
+    pub fn decode_field_line_type(byte: u8) -> u8 {
+        match Decoder::decode_field_line_type(byte) {
+            FieldLineType::Indexed => 0,
+            FieldLineType::IndexedPost => 1,
+            FieldLineType::LiteralRefName => 2,
+            FieldLineType::LiteralPostRefName => 3,
+            FieldLineType::LiteralLitName => 4,
+        }
+    }
+
+    pub fn lookup_field(index: usize) -> Option<(&'static str, &'static str)> {
+        StaticTable::lookup_field(index)
+    }
+
+    /// `Some((true, i))` = name and value found at `i`; `Some((false, i))` = name only.
+    pub fn lookup_index(key: &str, value: &str) -> Option<(bool, usize)> {
+        StaticTable::lookup_index(key, value).map(|found| match found {
+            LookupIndexFound::KeyValue(index) => (true, index),
+            LookupIndexFound::KeyOnly(index) => (false, index),
+        })
+    }
+}
